@@ -96,3 +96,39 @@ Definition builtin_tmpls : list tmpl :=
 (* templates of a generated std_ops table (null bodies contribute nothing) *)
 Definition tmpls_of (ops : list (list N * list N * bool * list (option (list N)))) : list tmpl :=
   map (fun o => snd o) (filter (fun o => negb (snd (fst o))) ops).
+
+(* ---- the renderer with the guard of fixes/C07-N11 (translate_operator, operators.rs): an operand whose text starts with
+   [-] is parenthesised when the text rendered so far ends in [-].  [inst_g acc t fills] = the whole text, [acc] = what has
+   been rendered of this template so far.  A missing operand is rendered as [?] (does not happen). *)
+Definition starts_minus (s : str) : bool := match s with c :: _ => N.eqb c c_minus | [] => false end.
+Definition ends_in_slash (s : str) : bool := match lastc s with Some c => N.eqb c c_slash | None => false end.
+Definition guard (acc fill : str) : str :=
+  if ends_in_minus acc && starts_minus fill then 40 :: fill ++ [41] else fill.
+Fixpoint inst_g (acc : str) (t : tmpl) (fills : list str) : str :=
+  match t with
+  | [] => acc
+  | Some s :: r => inst_g (acc ++ s) r fills
+  | None :: r => match fills with
+                 | a :: fills' => inst_g (acc ++ guard acc a) r fills'
+                 | [] => inst_g (acc ++ guard acc [63]) r []
+                 end
+  end.
+(* side condition on the templates under the guard: a text chunk may END in [-] provided a hole follows it directly *)
+Fixpoint tmpl_safe_g (t : tmpl) : bool :=
+  match t with
+  | [] => true
+  | Some s :: r => no_opener s && negb (ends_in_slash s)
+                   && (negb (ends_in_minus s) || match r with None :: _ => true | _ => false end) && tmpl_safe_g r
+  | None :: r => tmpl_safe_g r
+  end.
+Definition tmpls_safe_g (T : list tmpl) : bool := forallb tmpl_safe_g T.
+
+Inductive Outg (T : list tmpl) : str -> Prop :=
+| Og_atom s : endsafe s = true -> s <> [] -> Outg T s
+| Og_paren s : Outg T s -> Outg T (40 :: s ++ [41])
+| Og_inst t fills : In t T -> Outsg T fills -> Outg T (inst_g [] t fills)
+with Outsg (T : list tmpl) : list str -> Prop :=
+| Osg_nil : Outsg T []
+| Osg_cons s l : Outg T s -> Outsg T l -> Outsg T (s :: l).
+Scheme Outg_mut := Induction for Outg Sort Prop
+with Outsg_mut := Induction for Outsg Sort Prop.
